@@ -2,6 +2,8 @@
 from __future__ import annotations
 
 import ast
+import re
+import copy
 import itertools
 
 from oracles import tables as O
@@ -48,7 +50,7 @@ def norm_init(v):
 
 @rule("R13.1", "C13", "reset completeness: every attribute get_meta reads is restored to its initial value by reset_flags; no shared class-level container", min_instances=7)
 def r13_1(ctx):
-    idx = get_index(ctx.env)
+    idx = _get_idx(ctx)
     gm_fi = idx.func(f"{EXT}.get_meta")
     rf_fi = idx.func(f"{EXT}.reset_flags")
     init_fi = idx.func(f"{EXT}.__init__")
@@ -72,16 +74,65 @@ def r13_1(ctx):
     ctx.check("RZILTransformer.reset calls ext.reset_flags", "self.ext.reset_flags" in calls, "self.ext.reset_flags()", str(calls), fn_where(idx, r))
 
 
+_IDX = {}
+
+
+def _get_idx(ctx):
+    idx = get_index(ctx.env)
+    if _IDX.get("idx") is not idx:
+        _IDX.clear()
+        _IDX["idx"] = idx
+    return idx
+
+
+def _preds_init():
+    """the representation the extension itself gives an empty set of written predicates (what reset_flags stores): the rules never
+    assume it is a list"""
+    idx = _IDX.get("idx")
+    if idx is None or "init" in _IDX:
+        return copy.deepcopy(_IDX.get("init", []))
+    o = AObj(EXT, {k: False for k in FLAGS}, label="ext")
+    try:
+        Interp(idx).explore(lambda i: i.call_function(idx.func(f"{EXT}.reset_flags"), [], self_obj=o))
+        _IDX["init"] = o.fields.get("preds_written", [])
+    except Exception:
+        _IDX["init"] = []
+    return copy.deepcopy(_IDX["init"])
+
+
 def fresh_ext(**over):
     f = {k: False for k in FLAGS}
-    f["preds_written"] = []
+    f["preds_written"] = _preds_init()
     f["missing_fcns"] = {}
+    preds = over.pop("preds", None)
     f.update(over)
-    return AObj(EXT, f, label="ext")
+    o = AObj(EXT, f, label="ext")
+    if preds:
+        # written predicates are recorded through the extension's own setter (whatever it stores)
+        idx = _IDX["idx"]
+        keep = o.fields.get("writes_predicate")
+        for p_ in preds:
+            Interp(idx).explore(lambda i, p_=p_: i.call_function(idx.func(f"{EXT}.set_writes_pred"), [p_], self_obj=o))
+        o.fields["writes_predicate"] = keep
+    return o
+
+
+def preds_of(o):
+    """numbers of the predicates the extension would report as written, read through get_meta (representation independent)"""
+    idx = _IDX["idx"]
+    c = AObj(EXT, dict(o.fields), label="ext")
+    c.fields["preds_written"] = copy.deepcopy(o.fields.get("preds_written"))
+    c.fields["writes_predicate"] = True
+    outs = Interp(idx).explore(lambda i: i.call_function(idx.func(f"{EXT}.get_meta"), [], self_obj=c))
+    res = set()
+    for out in outs:
+        if out.kind == "return" and isinstance(out.value, list):
+            res |= {int(m.group(1)) for x in out.value for m in [re.fullmatch(r"HEX_IL_INSN_ATTR_WRITE_P(\d+)", to_text(x))] if m}
+    return tuple(sorted(res))
 
 
 def ext_state(o):
-    return tuple(sorted(k for k in FLAGS if o.fields.get(k) is True)), tuple(o.fields.get("preds_written") or [])
+    return tuple(sorted(k for k in FLAGS if o.fields.get(k) is True)), preds_of(o)
 
 
 TOKEN_EFFECT = {
@@ -111,7 +162,7 @@ def tokens_used(idx):
 
 @rule("R13.2", "C13", "set_token_meta_data state machine: token -> flag change (incl. sequences: flags accumulate, predicate numbers accumulate)", min_instances=40)
 def r13_2(ctx):
-    idx = get_index(ctx.env)
+    idx = _get_idx(ctx)
     fi = idx.func(f"{EXT}.set_token_meta_data")
 
     def run(seq):
@@ -168,12 +219,12 @@ def r13_2(ctx):
 
 @rule("R13.4", "C13", "get_meta table over all flag valuations: flag <-> attribute string, WRITE_Pn only under WPRED, NONE iff nothing applies; no-op / unimplemented records", min_instances=64)
 def r13_4(ctx):
-    idx = get_index(ctx.env)
+    idx = _get_idx(ctx)
     fi = idx.func(f"{EXT}.get_meta")
     for bits in itertools.product([False, True], repeat=len(FLAGS)):
-        for preds in ([], [0], [1, 3], [0, 1, 2, 3]):
+        for preds in ([], [0], [1, 3], [0, 1, 2, 3], [0, 0], [3, 3, 1, 1]):
             over = dict(zip(FLAGS, bits))
-            over["preds_written"] = list(preds)
+            over["preds"] = list(preds)
 
             def once(interp):
                 return interp.call_function(fi, [], self_obj=fresh_ext(**over))
@@ -181,7 +232,7 @@ def r13_4(ctx):
             outs = Interp(idx).explore(once)
             exp = {O.ATTR_STRINGS[f] for f, b in over.items() if f in O.ATTR_STRINGS and b}
             if over["writes_predicate"]:
-                exp |= {f"HEX_IL_INSN_ATTR_WRITE_P{p}" for p in preds}
+                exp |= {f"HEX_IL_INSN_ATTR_WRITE_P{p}" for p in preds if p in range(4)}
             if not exp:
                 exp = {"HEX_IL_INSN_ATTR_NONE"}
             obs = [sorted(to_text(x) for x in o.value) if o.kind == "return" and isinstance(o.value, list) else outcome_text(o) for o in outs]
@@ -197,19 +248,39 @@ def r13_4(ctx):
     args = calls[0].args
     ctx.check("unimplemented instruction record", len(args) >= 3 and U(args[2]) == "[['HEX_IL_INSN_ATTR_INVALID']]" and any(k.arg == "not_implemented" and U(k.value) == "True" for k in calls[0].keywords),
               "meta [['HEX_IL_INSN_ATTR_INVALID']], not_implemented=True", U(calls[0])[:120], fn_where(idx, f3))
-    # transform_insn: no-op list -> get_noped_meta
+    # transform_insn: no-op list -> get_noped_meta.  The list is consulted with the NORMALISED name (the one the record is filed under):
+    # guards are read with local bindings substituted, so a hoisted `is_noped = ...` is seen through
     ti = idx.func("Compiler.transform_insn")
-    found = False
-    for n in ast.walk(ti.node):
-        if isinstance(n, ast.If) and "noped_insns" in U(n.test):
-            body_calls = [call_name(c) for s in n.body for c in ast.walk(s) if isinstance(c, ast.Call)]
-            else_calls = [call_name(c) for s in n.orelse for c in ast.walk(s) if isinstance(c, ast.Call)]
-            found = True
-            ctx.check("transform_insn: no-op list reports get_noped_meta, others get_meta after transform",
-                      "self.transformer.ext.get_noped_meta" in body_calls and "self.transformer.ext.get_meta" in else_calls and "self.transformer.transform" in else_calls
-                      and U(n.test) == "insn in self.noped_insns",
-                      "if insn in self.noped_insns: get_noped_meta() else: transform(); get_meta()", f"test={U(n.test)} body={body_calls} else={else_calls}", fn_where(idx, ti))
-    ctx.need(found, "transform_insn no longer branches on noped_insns")
+    name_param = ti.node.args.args[1].arg
+    body_paths = []
+
+    def collect(events):
+        for e in events:
+            if e.kind == "loop":
+                for bp in e.extra:
+                    body_paths.append(bp)
+                    collect(bp.events)
+    for p_ in paths_of(ti.node):
+        collect(p_.events)
+    ctx.need(body_paths, "transform_insn: per-part loop not found")
+    nop_paths = [bp for bp in body_paths if any(e.kind == "call" and isinstance(e.node, ast.Call) and call_tail(e.node) == "get_noped_meta" for e in bp.events)]
+    real_paths = [bp for bp in body_paths if any(e.kind == "call" and isinstance(e.node, ast.Call) and call_tail(e.node) == "get_meta" for e in bp.events)]
+    ctx.need(nop_paths and real_paths, "transform_insn: no-op branch or compiling branch of the per-part loop not found")
+
+    def noped_guard(bp, polarity):
+        for g, pol in bp.guards:
+            t = U(g)
+            if "noped_insns" in t and pol == polarity and isinstance(g, ast.Compare) and len(g.ops) == 1 and isinstance(g.ops[0], ast.In):
+                return U(g.left)
+        return None
+    for kind, paths, pol in (("no-op record", nop_paths, True), ("compiled record", real_paths, False)):
+        keys = sorted({str(noped_guard(bp, pol)) for bp in paths})
+        ok = len(keys) == 1 and "transform_insn_name" in keys[0] and name_param in keys[0]
+        ctx.check(f"transform_insn: {kind} is chosen by the normalised name's membership in the no-op list", ok, f"<ext>.transform_insn_name({name_param}) in self.noped_insns",
+                  f"tested key: {keys}", fn_where(idx, ti))
+    ok = all(any(e.kind == "call" and isinstance(e.node, ast.Call) and call_tail(e.node) == "transform" for e in bp.events) for bp in real_paths) and \
+        not any(any(e.kind == "call" and isinstance(e.node, ast.Call) and call_tail(e.node) in ("transform", "get_meta") for e in bp.events) for bp in nop_paths)
+    ctx.check("transform_insn: no-op list reports get_noped_meta, others get_meta after transform", ok, "no-op: get_noped_meta() only; else: transform(); get_meta()", "ok" if ok else "branch contents differ", fn_where(idx, ti))
 
 
 WHO_MAY = {
@@ -227,7 +298,7 @@ SETTERS = {"set_uses_new", "set_writes_pred", "set_writes_mem", "set_reads_mem",
 
 @rule("R13.3", "C13", "construct <=> flag: exactly the callbacks of the attribute-relevant productions signal the construct (must-call on all paths, who-may-call)", min_instances=25)
 def r13_3(ctx):
-    idx = get_index(ctx.env)
+    idx = _get_idx(ctx)
     gm = get_grammar(ctx.env)
     callers = {t: set() for t in WHO_MAY}
     dyn = []
@@ -380,7 +451,7 @@ def r13_3(ctx):
 
 @rule("R13.5", "C13", "transform_insn collects attributes per part: reset before each part's transform, get_meta after it", min_instances=2)
 def r13_5(ctx):
-    idx = get_index(ctx.env)
+    idx = _get_idx(ctx)
     fi = idx.func("Compiler.transform_insn")
     ps = paths_of(fi.node)
     loops = []
